@@ -46,6 +46,14 @@ def fault_shards(tier):
         for a in one:
             if a[2]:
                 out.append({"rec": [list(a), [2, 1, 0]], "mclass": "33"})
+    # the message in flight is one the manager originates itself (CLIENT_INFO): the removal nests a second manager message in it
+    from pyrtma import core_defs as cd
+    ci = str(cd.MT_CLIENT_INFO)
+    pairs = [([2, 1, 1], [2, 1, 0]), ([1, 1, 1], [2, 1, 0]), ([1, 1, 2], [1, 1, 0]), ([2, 1, 0], [2, 1, 1]), ([2, 1, 2], [1, 1, 0])]
+    if tier != "quick":
+        pairs = [(list(a), list(b)) for a, b in itertools.product(one, repeat=2) if (a[2] or b[2]) and a[0] and b[0] and a[1] and b[1]]
+    for a, b in pairs:
+        out.append({"rec": [a, b], "mclass": ci, "origin": "mgr"})
     return out
 
 
@@ -68,7 +76,7 @@ def obligations(tier):
         Obligation("write_side_failure_during_delivery", "harness.mgr_faults", "c07", fault_shards(tier), cond_timeout=400, path_timeout=60,
                    reach="c07_reach", reach_shards=[{"rec": [[1, 1, 1], [2, 1, 0]], "mclass": "gen"}],
                    encoded=ENC,
-                   bounds="2 recipients (3 in part of the thorough tier); each healthy / dying at the header / dying at the payload half; up to 2 departures in one delivery",
+                   bounds="2 recipients (3 in part of the thorough tier); each healthy / dying at the header / dying at the payload half; up to 2 departures in one delivery; the message in flight a client frame or a manager-originated CLIENT_INFO",
                    symbolic="msg_type, dest_mod 0..200, ids 0..199, logger bits, FAILED_MESSAGE/CLIENT_CLOSED subscription bits"),
     ]
 
